@@ -180,6 +180,7 @@ fn run_scenario(sc: Value) -> Value {
 
 fn main() {
     quiet_panics();
+    hcommon::start_watchdog();
     let args: Vec<String> = std::env::args().collect();
     let input: Box<dyn BufRead> = if args.len() > 1 {
         Box::new(std::io::BufReader::new(std::fs::File::open(&args[1]).expect("open input")))
@@ -200,6 +201,7 @@ fn main() {
             }
         };
         let id = sc.get("id").cloned().unwrap_or(Value::Null);
+        hcommon::arm_watchdog(sc.get("timeout_ms").and_then(Value::as_u64).unwrap_or(0));
         let res = match isolated(move || {
             let r = std::panic::catch_unwind(std::panic::AssertUnwindSafe(|| run_scenario(sc)));
             match r {
@@ -218,6 +220,7 @@ fn main() {
             }
             Err(m) => json!({"id": id, "panic": m}),
         };
+        hcommon::arm_watchdog(0);
         let mut lock = stdout.lock();
         serde_json::to_writer(&mut lock, &res).expect("write");
         lock.write_all(b"\n").expect("write");
